@@ -1,10 +1,576 @@
-(* C03 — property theorems (stub while the pipeline is brought up). *)
-From Verif Require Import Lib.Base Model.C03_ChainTime Proofs.C03_ChainTime.
+(* C03 — every duty is scheduled once, for the right time, across restarts and reorgs.
+   Property theorems only.  The model is in Model/C03_ChainTime.v (chain time, written from
+   services/chaintime/standard/service.go) and Model/C03_Controller.v (the controller over the
+   abstract scheduler, written from services/controller/standard/*.go and
+   services/attester/helpers.go); the declarative reading of each scheduling function and the
+   vocabulary of the history-level theorems (discipline of a history, table invariants) are in
+   Model/C03_Spec.v; the lemmas are in Proofs/C03_*.v.
+
+   Reading guide.  [tget t n] is the job filed under name [n] in the scheduler's table [t];
+   [sched_att / sched_prop / sched_sync] are scheduleAttestations / scheduleProposals /
+   scheduleSyncCommitteeMessages, [refresh_*] the refreshes after a change of dependent root,
+   [head_event] HandleHeadEvent, [epoch_tick] the epoch ticker, [start] the constructor, [fire]
+   the scheduler running a job; [run c st ops] folds [step] over a history of such events.
+   Every theorem quantifies over all configurations, all answers of the beacon node (any slots,
+   any validators, duplicates), all clock positions and all histories. *)
+From Verif Require Import Lib.Base Model.C03_ChainTime Model.C03_Controller Model.C03_Spec
+     Proofs.C03_ChainTime Proofs.C03_Table Proofs.C03_Sched Proofs.C03_Hist Proofs.C03_More Proofs.C03_Merge Proofs.C03_Witness Check.C03 Proofs.C03_Check.
+From Coq Require Import Permutation Sorted.
 Open Scope Z_scope.
 
+(* =========================================================================================== *)
+(* Chain time.  Domain: a slot lasts a whole, positive number of seconds and an epoch has at least
+   one slot ([params_ok]); the slot's start fits Go's int64 nanoseconds ([slot_in_range]). *)
+
+(* an instant inside slot s is reported as slot s *)
 Theorem C03_current_slot_in_slot : forall p s t,
   params_ok p -> slot_in_range p (s + 1) ->
   start_of_slot p s <= t < start_of_slot p (s + 1) ->
   current_slot p t = s.
 Proof. exact current_slot_in_slot. Qed.
 Print Assumptions C03_current_slot_in_slot.
+
+(* conversely, at or after genesis the present instant lies inside the slot CurrentSlot reports *)
+Theorem C03_now_in_current_slot : forall p t,
+  params_ok p -> ct_genesis p <= t -> slot_in_range p (current_slot p t + 1) ->
+  start_of_slot p (current_slot p t) <= t < start_of_slot p (current_slot p t + 1).
+Proof. exact now_in_current_slot. Qed.
+Print Assumptions C03_now_in_current_slot.
+
+Theorem C03_epoch_of_first_slot : forall p e,
+  (0 < ct_spe p)%N -> (e * ct_spe p < two64)%N ->
+  slot_to_epoch p (first_slot_of_epoch p e) = e.
+Proof. exact epoch_of_first_slot. Qed.
+Print Assumptions C03_epoch_of_first_slot.
+
+(* a slot lies between the first slot of its epoch and the first slot of the next one *)
+Theorem C03_first_slot_le : forall p s,
+  (0 < ct_spe p)%N -> ((slot_to_epoch p s + 1) * ct_spe p < two64)%N ->
+  (first_slot_of_epoch p (slot_to_epoch p s) <= s < first_slot_of_epoch p (slot_to_epoch p s + 1))%N.
+Proof. exact first_slot_le. Qed.
+Print Assumptions C03_first_slot_le.
+
+(* unconditionally, wrap-around included: both compute genesis + int64(uint64(e*spe)) * duration *)
+Theorem C03_start_of_epoch_is_start_of_first_slot : forall p e,
+  start_of_epoch p e = start_of_slot p (first_slot_of_epoch p e).
+Proof. exact start_of_epoch_is_start_of_first_slot. Qed.
+Print Assumptions C03_start_of_epoch_is_start_of_first_slot.
+
+Theorem C03_current_epoch_is_epoch_of_current_slot : forall p t,
+  params_ok p -> (Z.to_N (slot_secs p) * ct_spe p < two64)%N ->
+  current_epoch p t = slot_to_epoch p (current_slot p t).
+Proof. exact current_epoch_is_epoch_of_current_slot. Qed.
+Print Assumptions C03_current_epoch_is_epoch_of_current_slot.
+
+Theorem C03_start_of_slot_monotone : forall p s s',
+  params_ok p -> slot_in_range p s' -> (s < s')%N -> start_of_slot p s < start_of_slot p s'.
+Proof. exact start_of_slot_lt. Qed.
+Print Assumptions C03_start_of_slot_monotone.
+
+(* a job timed "slot start + delay" runs inside its slot exactly when 0 <= delay < slot duration *)
+Theorem C03_job_time_in_slot : forall p s delay,
+  params_ok p -> slot_in_range p (s + 1) -> 0 <= delay < ct_dur p ->
+  current_slot p (start_of_slot p s + delay) = s.
+Proof. exact job_time_in_slot. Qed.
+Print Assumptions C03_job_time_in_slot.
+
+(* non-vacuity: mainnet parameters, a slot seven years after genesis *)
+Example C03_chain_time_nonvacuous :
+  let p := {| ct_genesis := 1606824023000000000; ct_dur := 12000000000; ct_spe := 32 |} in
+  params_ok p /\ slot_in_range p (18000000 + 1) /\
+  current_slot p (start_of_slot p 18000000 + 11999999999) = 18000000%N /\
+  current_epoch p (start_of_slot p 18000000) = 562500%N.
+Proof.
+  cbv zeta. split; [exists 12; repeat split; reflexivity|]. split; [reflexivity|]. split; vm_compute; reflexivity.
+Qed.
+
+(* the defect repaired in the repository (c6f662e): through float64 seconds the last 16 ns before
+   this slot boundary of a five-year-old chain were already counted as the next second *)
+Example C03_float_seconds_boundary :
+  seconds_f64_trunc 159999995999999990 = 159999996 /\ whole_seconds 159999995999999990 = 159999995.
+Proof. split; vm_compute; reflexivity. Qed.
+
+Open Scope N_scope.
+
+(* =========================================================================================== *)
+(* The scheduling functions, exactly.  For every configuration [c], clock [cur], answer [ds] of the
+   node, requested [epoch], flag [notcur] and table [t]: the table afterwards, name by name. *)
+
+(* scheduleAttestations: an existing job stays; otherwise slot s gets a job iff some duty names it,
+   it lies in the requested epoch and it has not passed; that job is timed at the slot's start
+   plus maxAttestationDelay; nothing else changes; one job per name is preserved. *)
+Theorem C03_att_jobs_exact : forall c cur have_vals ds epoch notcur t,
+  (forall n, tget (sched_att c cur have_vals ds epoch notcur t) n =
+             match tget t n with
+             | Some j => Some j
+             | None => match n with
+                       | JAtt s => if have_vals && (existsb (fun d => ad_slot d =? s) ds && in_epoch c epoch s && due cur notcur s)
+                                   then Some {| j_name := JAtt s;
+                                                j_time := (start_of_slot (c_ct c) s + c_att_delay c)%Z;
+                                                j_pay := j_pay (att_job c ds epoch s) |}
+                                   else None
+                       | _ => None
+                       end
+             end) /\
+  (twf t -> twf (sched_att c cur have_vals ds epoch notcur t)).
+Proof.
+  intros c cur have_vals ds epoch notcur t. split; [|apply sched_att_wf].
+  intro n. exact (sched_att_exact c cur have_vals ds epoch notcur t n).
+Qed.
+Print Assumptions C03_att_jobs_exact.
+
+(* ... and the job of a slot of the requested epoch covers exactly the (validator, committee,
+   position) entries the node reported for that slot, duplicates included *)
+Theorem C03_att_job_covers_duties : forall c ds epoch s,
+  in_epoch c epoch s = true ->
+  Permutation (j_pay (att_job c ds epoch s))
+              (map (fun d => (ad_val d, ad_comm d, ad_vci d)) (filter (fun d => ad_slot d =? s) ds)).
+Proof. exact att_job_payload. Qed.
+Print Assumptions C03_att_job_covers_duties.
+
+(* scheduleProposals: likewise, with the early-proposal check at the slot's start when
+   maxProposalDelay > 0 *)
+Theorem C03_prop_jobs_exact : forall c cur have_vals ds epoch notcur t,
+  (forall n, tget (sched_prop c cur have_vals ds epoch notcur t) n =
+             match tget t n with
+             | Some j => Some j
+             | None =>
+                 let wanted s := have_vals && (existsb (fun d => pd_slot d =? s) ds && in_epoch c epoch s && due cur notcur s) in
+                 match n with
+                 | JProp s => if wanted s
+                              then Some {| j_name := JProp s;
+                                           j_time := (start_of_slot (c_ct c) s + c_prop_delay c)%Z;
+                                           j_pay := j_pay (prop_job c ds epoch s) |}
+                              else None
+                 | JEarly s => if wanted s && (0 <? c_prop_delay c)%Z
+                               then Some {| j_name := JEarly s; j_time := start_of_slot (c_ct c) s; j_pay := [] |}
+                               else None
+                 | _ => None
+                 end
+             end) /\
+  (twf t -> twf (sched_prop c cur have_vals ds epoch notcur t)).
+Proof.
+  intros c cur have_vals ds epoch notcur t. split; [|apply sched_prop_wf].
+  intro n. exact (sched_prop_exact c cur have_vals ds epoch notcur t n).
+Qed.
+Print Assumptions C03_prop_jobs_exact.
+
+Theorem C03_prop_job_covers_duties : forall c ds epoch s,
+  in_epoch c epoch s = true ->
+  j_pay (prop_job c ds epoch s) = map (fun d => (pd_val d, 0, 0)) (filter (fun d => pd_slot d =? s) ds).
+Proof. exact prop_job_payload. Qed.
+Print Assumptions C03_prop_job_covers_duties.
+
+(* scheduleSyncCommitteeMessages: one preparation job per slot of the window [fs, ls] computed by
+   [sync_window] (first slot - 1 of the period clamped to the fork epoch and to now .. last slot - 1),
+   1.5 slots ahead, for the validators the node names for the period; nothing before the fork *)
+Theorem C03_sync_jobs_exact : forall c ae cur e epoch notcur t,
+  (forall n, tget (sched_sync c ae cur e epoch notcur t) n = spec_sched_sync c ae cur e epoch notcur t n) /\
+  (twf t -> twf (sched_sync c ae cur e epoch notcur t)) /\
+  (forall fe fs ls, sync_window c ae cur epoch = (fe, fs, ls) -> cur <= fs).
+Proof.
+  intros c ae cur e epoch notcur t. split; [|split].
+  - intro n. apply sched_sync_exact.
+  - apply sched_sync_wf.
+  - intros fe fs ls H. exact (sync_window_first c ae cur epoch fe fs ls H).
+Qed.
+Print Assumptions C03_sync_jobs_exact.
+
+(* non-vacuity of the exactness theorems: duties inside and outside the epoch, past, current and
+   future; the table afterwards has exactly the two jobs the statement predicts *)
+Example C03_att_jobs_nonvacuous :
+  let ds := [ {| ad_slot := 9; ad_val := 1; ad_comm := 2; ad_vci := 3 |};      (* current slot *)
+              {| ad_slot := 8; ad_val := 2; ad_comm := 0; ad_vci := 1 |};      (* passed *)
+              {| ad_slot := 11; ad_val := 3; ad_comm := 1; ad_vci := 0 |};
+              {| ad_slot := 11; ad_val := 4; ad_comm := 0; ad_vci := 7 |};
+              {| ad_slot := 12; ad_val := 5; ad_comm := 0; ad_vci := 0 |} ] in (* next epoch *)
+  map (fun j => (j_name j, j_pay j)) (sched_att wcfg 9 true ds 2 false []) =
+  [ (JAtt 9, [(1, 2, 3)]); (JAtt 11, [(4, 0, 7); (3, 1, 0)]) ].
+Proof. vm_compute. reflexivity. Qed.
+
+(* "ignores duties outside the requested epoch": the slot filter of the scheduling functions keeps
+   exactly the slots whose chain-time epoch is the requested one *)
+Theorem C03_in_epoch_is_chain_time_epoch : forall c e s,
+  0 < ct_spe (c_ct c) -> (e + 1) * ct_spe (c_ct c) < two64 ->
+  (in_epoch c e s = true <-> slot_to_epoch (c_ct c) s = e).
+Proof. exact in_epoch_iff. Qed.
+Print Assumptions C03_in_epoch_is_chain_time_epoch.
+
+(* the sync committee window in plain arithmetic: from the slot before the period's first slot
+   (clamped to the fork epoch, to slot 0 and to now) to two slots before the next period's first slot *)
+Theorem C03_sync_window_plain : forall c ae cur ep,
+  let P := ep / c_period c in
+  let ce := cur_epoch c cur in
+  let hiE := N.max ((P + 1) * c_period c) ae in
+  let fe := N.max (N.max (P * c_period c) ae) ce in
+  N.max hiE ce * ct_spe (c_ct c) < two64 -> 2 <= hiE * ct_spe (c_ct c) -> 0 < c_period c ->
+  sync_window c ae cur ep = (fe, N.max (fe * ct_spe (c_ct c) - 1) cur, hiE * ct_spe (c_ct c) - 2).
+Proof. exact sync_window_plain. Qed.
+Print Assumptions C03_sync_window_plain.
+
+(* =========================================================================================== *)
+(* Every history, disciplined or not: the scheduler never holds two jobs of one name, and every
+   attestation / proposal / early-proposal / sync-preparation job is timed at its slot's start
+   plus the configured delay. *)
+Theorem C03_one_job_per_name_rightly_timed : forall shadowed c ops st,
+  tbl_ok c (st_jobs st) -> tbl_ok c (st_jobs (run shadowed c st ops)).
+Proof. intros shadowed c ops st. exact (run_ok c shadowed ops st). Qed.
+Print Assumptions C03_one_job_per_name_rightly_timed.
+
+Example C03_tbl_ok_nonvacuous : forall h ae, tbl_ok wcfg (st_jobs (init_state h ae)).
+Proof. intros h ae. apply tbl_ok_nil. Qed.
+
+(* ... hence, with the chain-time theorems: in every history every attestation / proposal job is
+   timed inside the slot of its duty (for delays shorter than a slot) *)
+Theorem C03_jobs_run_in_their_slot : forall shadowed c ops st n j,
+  tbl_ok c (st_jobs st) -> params_ok (c_ct c) ->
+  tget (st_jobs (run shadowed c st ops)) n = Some j ->
+  match n with
+  | JAtt s => slot_in_range (c_ct c) (s + 1) -> (0 <= c_att_delay c < ct_dur (c_ct c))%Z ->
+              current_slot (c_ct c) (j_time j) = s
+  | JProp s => slot_in_range (c_ct c) (s + 1) -> (0 <= c_prop_delay c < ct_dur (c_ct c))%Z ->
+               current_slot (c_ct c) (j_time j) = s
+  | JEarly s => slot_in_range (c_ct c) (s + 1) -> current_slot (c_ct c) (j_time j) = s
+  | _ => True
+  end.
+Proof. exact jobs_in_slot_run. Qed.
+Print Assumptions C03_jobs_run_in_their_slot.
+
+(* A scheduled job stays in the table, unchanged, through every event except: it runs (its own
+   firing, the early-proposal check finding the head up to date, the fast track of the current
+   slot's attestation), a detected change of dependent root refreshes its kind, or the process
+   restarts.  [may_drop] (Proofs/C03_More.v) spells these cases out per operation. *)
+Theorem C03_jobs_persist : forall shadowed c st o n j,
+  tget (st_jobs st) n = Some j ->
+  tget (st_jobs (step shadowed c st o)) n = Some j \/
+  match o with
+  | Start => True
+  | Fire m h => m = n \/ (exists s, m = JEarly s /\ n = JProp s /\ h = sub64 s 1)
+  | Head slot pr cr =>
+      slot = st_cur st /\
+      let d := reorg_decide (st_last_epoch st) (st_prev_root st) (st_cur_root st) (slot_to_epoch (c_ct c) slot) pr cr in
+      ((c_ft_att c = true /\ n = JAtt slot) \/
+       (fst d = true /\ is_att n = true) \/
+       (snd d = true /\ (is_att n = true \/ is_prop n = true \/ is_sync n = true)))
+  | RefreshAtt _ => is_att n = true
+  | RefreshProp _ => is_prop n = true
+  | RefreshSync _ => is_sync n = true
+  | _ => False
+  end.
+Proof. exact jobs_persist. Qed.
+Print Assumptions C03_jobs_persist.
+
+(* =========================================================================================== *)
+(* Start-up and restart at any instant, whatever the node answers: every job of the fresh process
+   concerns a slot strictly after the current one, and there is no epoch-preparation job. *)
+Theorem C03_restart_strictly_later : forall shadowed c st n j,
+  tget (st_jobs (start shadowed c st)) n = Some j ->
+  match n with
+  | JAtt s | JProp s | JEarly s | JSync s => st_cur st < s
+  | JPrep _ => False
+  end.
+Proof. intros shadowed c st n j H. exact (start_later shadowed c st n j H). Qed.
+Print Assumptions C03_restart_strictly_later.
+
+Example C03_restart_nonvacuous :
+  map j_name (st_jobs (start false wcfg (set_env (set_cur (init_state false 0) 8) wenv))) = [JProp 9; JAtt 9].
+Proof. vm_compute. reflexivity. Qed.
+
+(* ... and it schedules every strictly later duty the node reports for the current and the next
+   epoch, with the reported validator and the right time *)
+Theorem C03_restart_schedules_later_duties : forall shadowed c,
+  0 < ct_spe (c_ct c) ->
+  forall st d,
+    bounded c (st_cur st) -> e_vals (st_env st) = true ->
+    let ce := cur_epoch c (st_cur st) in
+    st_cur st < ad_slot d ->
+    (In d (alookup (e_att (st_env st)) ce) /\ in_epoch c ce (ad_slot d) = true) \/
+    (In d (alookup (e_att (st_env st)) (add64 ce 1)) /\ in_epoch c (add64 ce 1) (ad_slot d) = true) ->
+    exists j, tget (st_jobs (start shadowed c st)) (JAtt (ad_slot d)) = Some j /\
+              In (ad_val d, ad_comm d, ad_vci d) (j_pay j) /\
+              j_time j = (start_of_slot (c_ct c) (ad_slot d) + c_att_delay c)%Z.
+Proof. exact start_schedules_later_duties. Qed.
+Print Assumptions C03_restart_schedules_later_duties.
+
+(* =========================================================================================== *)
+(* The once-per-epoch guard.  After the ticker has run, any further tick of the same process while
+   the clock is in that epoch (or an earlier one) changes nothing, whatever happened in between. *)
+Theorem C03_epoch_tick_once : forall shadowed c st ops,
+  Forall not_start ops ->
+  let st2 := run shadowed c (epoch_tick c st) ops in
+  cur_epoch c (st_cur st2) <= cur_epoch c (st_cur st) ->
+  epoch_tick c st2 = st2.
+Proof. exact tick_once. Qed.
+Print Assumptions C03_epoch_tick_once.
+
+Theorem C03_epoch_tick_idempotent : forall c st, epoch_tick c (epoch_tick c st) = epoch_tick c st.
+Proof. exact tick_idempotent. Qed.
+Print Assumptions C03_epoch_tick_idempotent.
+
+(* =========================================================================================== *)
+(* Reorg detection.  [reorg_decide last ps cs ep pr cr] is checkEventForReorg for an event of
+   epoch [ep] with roots (pr, cr) when the stored state is (last, ps, cs); 0 is the zero root. *)
+Theorem C03_reorg_detect : forall last ps cs ep pr cr,
+  (fst (reorg_decide last ps cs ep pr cr) = true <->          (* previous-root handler *)
+     last <> 0 /\ ps <> 0 /\ ((last < ep /\ cs <> pr) \/ (ep <= last /\ ps <> pr))) /\
+  (snd (reorg_decide last ps cs ep pr cr) = true <->          (* current-root handler *)
+     last <> 0 /\ ep <= last /\ cs <> 0 /\ cs <> cr).
+Proof. exact reorg_decide_spec. Qed.
+Print Assumptions C03_reorg_detect.
+
+(* what a head event for the current slot does to the job table: the refreshes selected by the
+   rule above, in order, then the fast track of the slot's attestation job; and the roots stored *)
+Theorem C03_head_event_effect : forall c st slot pr cr,
+  slot = st_cur st ->
+  let ep := slot_to_epoch (c_ct c) slot in
+  let d := reorg_decide (st_last_epoch st) (st_prev_root st) (st_cur_root st) ep pr cr in
+  let ce := cur_epoch c (st_cur st) in
+  let t1 := if fst d then refresh_att c (st_cur st) (st_env st) ce (st_jobs st) else st_jobs st in
+  let t2 := if snd d then
+              refresh_att c (st_cur st) (st_env st) (add64 ce 1)
+                (let tp := refresh_prop c (st_cur st) (st_env st) ce t1 in
+                 if ce mod c_period c =? 0
+                 then refresh_sync c (st_altair st) (st_altair_epoch st) (st_cur st) (st_env st) (add64 ce (c_period c)) tp
+                 else tp)
+            else t1 in
+  let st' := head_event c st slot pr cr in
+  (forall n, tget (st_jobs st') n = if c_ft_att c && jname_eqb (JAtt slot) n then None else tget t2 n) /\
+  st_last_epoch st' = ep /\ st_prev_root st' = pr /\ st_cur_root st' = cr.
+Proof.
+  intros c st slot pr cr Hs. cbv zeta. split.
+  - intro n. exact (head_event_jobs c st slot pr cr n Hs).
+  - exact (head_event_roots c st slot pr cr Hs).
+Qed.
+Print Assumptions C03_head_event_effect.
+
+Theorem C03_head_event_other_slot_ignored : forall c st slot pr cr,
+  slot <> st_cur st -> head_event c st slot pr cr = st.
+Proof. exact head_event_other_slot. Qed.
+Print Assumptions C03_head_event_other_slot_ignored.
+
+(* A refresh replaces.  Unless the epoch still waits for its preparation job, afterwards the
+   attestation jobs of the epoch are exactly those of the duties the node reports NOW (none of the
+   old ones survives; the current slot is rescheduled only if its job had not run yet), and no
+   other job is touched. *)
+Theorem C03_reorg_replaces : forall c cur e ep t n,
+  texists t (JPrep ep) = false ->
+  0 < first_slot_of_epoch (c_ct c) (add64 ep 1) ->
+  let ds := alookup (e_att e) ep in
+  let notcur := negb (epoch_has c ep cur && texists t (JAtt cur)) in
+  tget (refresh_att c cur e ep t) n =
+  match n with
+  | JAtt s => if epoch_has c ep s
+              then if e_vals e && att_wanted c cur notcur ds ep s then Some (att_job c ds ep s) else None
+              else tget t n
+  | _ => tget t n
+  end.
+Proof. exact refresh_att_replaces. Qed.
+Print Assumptions C03_reorg_replaces.
+
+Theorem C03_reorg_replaces_proposals : forall c cur e ep t n,
+  0 < first_slot_of_epoch (c_ct c) (add64 ep 1) ->
+  let ds := alookup (e_prop e) ep in
+  tget (refresh_prop c cur e ep t) n =
+  match n with
+  | JProp s => if epoch_has c ep s
+               then if e_vals e && prop_wanted c cur true ds ep s then Some (prop_job c ds ep s) else None
+               else tget t n
+  | JEarly s => if epoch_has c ep s
+                then if e_vals e && prop_wanted c cur true ds ep s && (0 <? c_prop_delay c)%Z then Some (early_job c s) else None
+                else tget t n
+  | _ => tget t n
+  end.
+Proof. exact refresh_prop_replaces. Qed.
+Print Assumptions C03_reorg_replaces_proposals.
+
+(* the property's sentence in one statement: a head event for the current slot whose previous
+   dependent root changed (and only that) replaces the current epoch's attestation jobs by exactly
+   those of the duties the node reports now *)
+Theorem C03_reorg_replaces_on_head_event : forall c st slot pr cr s,
+  slot = st_cur st ->
+  let ce := cur_epoch c (st_cur st) in
+  let d := reorg_decide (st_last_epoch st) (st_prev_root st) (st_cur_root st) (slot_to_epoch (c_ct c) slot) pr cr in
+  fst d = true -> snd d = false ->
+  texists (st_jobs st) (JPrep ce) = false ->
+  0 < first_slot_of_epoch (c_ct c) (add64 ce 1) ->
+  epoch_has c ce s = true ->
+  (c_ft_att c = false \/ s <> slot) ->
+  let ds := alookup (e_att (st_env st)) ce in
+  let notcur := negb (epoch_has c ce (st_cur st) && texists (st_jobs st) (JAtt (st_cur st))) in
+  tget (st_jobs (head_event c st slot pr cr)) (JAtt s) =
+  if e_vals (st_env st) && att_wanted c (st_cur st) notcur ds ce s then Some (att_job c ds ce s) else None.
+Proof. exact head_event_prev_root_replaces. Qed.
+Print Assumptions C03_reorg_replaces_on_head_event.
+
+Example C03_reorg_on_head_event_nonvacuous :
+  let env1 := {| e_att := [(1, [ {| ad_slot := 6; ad_val := 1; ad_comm := 0; ad_vci := 5 |} ])];
+                 e_prop := []; e_sync := []; e_vals := true |} in
+  let env2 := {| e_att := [(1, [ {| ad_slot := 7; ad_val := 2; ad_comm := 0; ad_vci := 6 |} ])];
+                 e_prop := []; e_sync := []; e_vals := true |} in
+  let st := run false wcfg (init_state false 0) [Advance 4; SetEnv env1; Start; Head 4 1 2; SetEnv env2] in
+  let d := reorg_decide (st_last_epoch st) (st_prev_root st) (st_cur_root st) (slot_to_epoch (c_ct wcfg) 4) 5 2 in
+  fst d = true /\ snd d = false /\ texists (st_jobs st) (JPrep 1) = false /\
+  map j_name (st_jobs st) = [JAtt 6] /\
+  map (fun j => (j_name j, j_pay j)) (st_jobs (head_event wcfg st 4 5 2)) = [(JAtt 7, [(2, 0, 6)])].
+Proof. vm_compute. repeat split; reflexivity. Qed.
+
+(* the guard of the refresh: while "Prepare for epoch ep" is pending nothing is touched *)
+Theorem C03_refresh_waits_for_preparation : forall c cur e ep t,
+  texists t (JPrep ep) = true -> refresh_att c cur e ep t = t.
+Proof. intros c cur e ep t H. unfold refresh_att. rewrite H. reflexivity. Qed.
+Print Assumptions C03_refresh_waits_for_preparation.
+
+Example C03_reorg_nonvacuous :
+  (* epoch 2 = slots 8..11, clock at 9; old jobs for 9 and 10; the node now reports 9 and 11 *)
+  let old := [ {| j_name := JAtt 9; j_time := 0%Z; j_pay := [(7, 0, 0)] |};
+               {| j_name := JAtt 10; j_time := 0%Z; j_pay := [(8, 0, 0)] |};
+               {| j_name := JAtt 13; j_time := 0%Z; j_pay := [(9, 0, 0)] |} ] in
+  let e := {| e_att := [(2, [ {| ad_slot := 9; ad_val := 1; ad_comm := 0; ad_vci := 5 |};
+                              {| ad_slot := 11; ad_val := 2; ad_comm := 0; ad_vci := 6 |} ])];
+              e_prop := []; e_sync := []; e_vals := true |} in
+  map (fun j => (j_name j, j_pay j)) (refresh_att wcfg 9 e 2 old) =
+  [ (JAtt 13, [(9, 0, 0)]); (JAtt 9, [(1, 0, 5)]); (JAtt 11, [(2, 0, 6)]) ].
+Proof. vm_compute. reflexivity. Qed.
+
+(* =========================================================================================== *)
+(* No obtained future duty is left without a job. *)
+Theorem C03_no_future_duty_without_job : forall c cur ds ep nc t d,
+  In d ds -> in_epoch c ep (ad_slot d) = true -> due cur nc (ad_slot d) = true ->
+  exists j, tget (sched_att c cur true ds ep nc t) (JAtt (ad_slot d)) = Some j /\
+            (tget t (JAtt (ad_slot d)) = None ->
+             j = att_job c ds ep (ad_slot d) /\ In (ad_val d, ad_comm d, ad_vci d) (j_pay j)).
+Proof. exact att_duty_has_job. Qed.
+Print Assumptions C03_no_future_duty_without_job.
+
+Theorem C03_no_future_proposal_without_job : forall c cur ds ep nc t d,
+  In d ds -> in_epoch c ep (pd_slot d) = true -> due cur nc (pd_slot d) = true ->
+  exists j, tget (sched_prop c cur true ds ep nc t) (JProp (pd_slot d)) = Some j /\
+            (tget t (JProp (pd_slot d)) = None ->
+             j = prop_job c ds ep (pd_slot d) /\ In (pd_val d, 0, 0) (j_pay j)).
+Proof. exact prop_duty_has_job. Qed.
+Print Assumptions C03_no_future_proposal_without_job.
+
+(* after a reorg refresh every later duty slot of the epoch has a job built from the NEW duties *)
+Theorem C03_no_future_duty_without_job_after_reorg : forall c cur e ep t d,
+  texists t (JPrep ep) = false -> e_vals e = true ->
+  0 < first_slot_of_epoch (c_ct c) (add64 ep 1) ->
+  In d (alookup (e_att e) ep) -> in_epoch c ep (ad_slot d) = true -> cur < ad_slot d ->
+  tget (refresh_att c cur e ep t) (JAtt (ad_slot d)) = Some (att_job c (alookup (e_att e) ep) ep (ad_slot d)) /\
+  In (ad_val d, ad_comm d, ad_vci d) (j_pay (att_job c (alookup (e_att e) ep) ep (ad_slot d))).
+Proof. exact refresh_att_duty_has_job. Qed.
+Print Assumptions C03_no_future_duty_without_job_after_reorg.
+
+(* =========================================================================================== *)
+(* No slot is attested for or proposed for twice.
+
+   Full statement: for EVERY history [ops] from a freshly built controller, the slots of the
+   Attest calls and of the Propose calls are duplicate-free.  The faithful model refutes it for
+   histories in which the epoch ticker or the epoch-preparation job runs a slot / half an epoch
+   late after a dependent-root change (the two [_refuted] theorems below: known findings
+   C03-late-epoch-tick and C03-late-epoch-preparation).  Proved here for the disciplined histories
+   [hist_ok] (Model/C03_Spec.v): the clock moves forward, a job runs at or after the start of its
+   slot, the ticker really runs only in the first slot of an epoch after the start-up epoch, the
+   preparation of an epoch runs before that epoch begins.  Also: nothing is ever attested or
+   proposed for a future slot, and a slot whose job is still pending has not been served. *)
+Theorem C03_no_slot_twice_partial : forall shadowed c,
+  0 < ct_spe (c_ct c) -> bounded c 0 ->
+  forall h ae ops,
+    hist_ok shadowed c 0 (init_state h ae) ops ->
+    let st := run shadowed c (init_state h ae) ops in
+    NoDup (att_slots st) /\ NoDup (prop_slots st) /\
+    (forall s, In s (att_slots st) \/ In s (prop_slots st) -> s <= st_cur st) /\
+    (forall s, tget (st_jobs st) (JAtt s) <> None -> ~ In s (att_slots st)) /\
+    (forall s, tget (st_jobs st) (JProp s) <> None -> ~ In s (prop_slots st)).
+Proof. exact no_slot_twice. Qed.
+Print Assumptions C03_no_slot_twice_partial.
+
+(* non-vacuity: a disciplined history with a start-up, two reorgs, ticks, the preparation job and
+   fired jobs, in which slot 9 is both attested and proposed (once) *)
+Example C03_no_slot_twice_nonvacuous :
+  hist_ok false wcfg 0 (init_state false 0) w_timely /\
+  (let st := run false wcfg (init_state false 0) w_timely in
+   att_slots st = [9] /\ prop_slots st = [9]).
+Proof. split; [exact w_timely_ok | exact w_timely_once]. Qed.
+
+Theorem C03_no_slot_twice_refuted_late_tick :
+  exists c ops, ~ NoDup (prop_slots (run false c (init_state false 0) ops)).
+Proof.
+  exists wcfg, w_late_tick. unfold prop_slots. rewrite w_late_tick_twice.
+  intro H. inversion H as [|? ? Hn _]. apply Hn. left. reflexivity.
+Qed.
+Print Assumptions C03_no_slot_twice_refuted_late_tick.
+
+Theorem C03_no_slot_twice_refuted_late_prepare :
+  exists c ops, ~ NoDup (att_slots (run false c (init_state false 0) ops)).
+Proof.
+  exists wcfg, w_late_prepare. unfold att_slots. rewrite w_late_prepare_twice.
+  intro H. inversion H as [|? ? Hn _]. apply Hn. left. reflexivity.
+Qed.
+Print Assumptions C03_no_slot_twice_refuted_late_prepare.
+
+(* =========================================================================================== *)
+(* MergeDuties.  For every list of duties (any slots, duplicates, inconsistent committee data):
+   parallel arrays of equal length and not empty; one merged duty per slot, slots ascending; the
+   (validator, committee, position) entries are exactly the reported ones, as often as reported;
+   every committee named has a size. *)
+Theorem C03_merge_duties_wf : forall ds,
+  let out := merge_duties ds in
+  Forall wf_m out /\
+  StronglySorted N.lt (map md_slot out) /\
+  Permutation (flat out) (map entry ds) /\
+  (forall m cm, In m out -> In cm (md_comms m) -> clen_lookup (md_clens m) cm <> None).
+Proof. exact merge_duties_wf. Qed.
+Print Assumptions C03_merge_duties_wf.
+
+Theorem C03_merge_duties_one_per_slot : forall ds, NoDup (map md_slot (merge_duties ds)).
+Proof. exact merge_duties_one_per_slot. Qed.
+Print Assumptions C03_merge_duties_one_per_slot.
+
+Theorem C03_merge_duties_covers : forall ds slot v cm vci,
+  In (slot, (v, cm, vci)) (flat (merge_duties ds)) <->
+  exists d, In d ds /\ fd_slot d = slot /\ fd_val d = v /\ fd_comm d = cm /\ fd_vci d = vci.
+Proof. exact merge_duties_covers. Qed.
+Print Assumptions C03_merge_duties_covers.
+
+Example C03_merge_nonvacuous :
+  map (fun m => (md_slot m, md_vals m, md_comms m))
+      (merge_duties [ {| fd_slot := 5; fd_val := 3; fd_comm := 1; fd_vci := 0; fd_clen := 10; fd_cas := 4 |};
+                      {| fd_slot := 4; fd_val := 9; fd_comm := 0; fd_vci := 2; fd_clen := 11; fd_cas := 4 |};
+                      {| fd_slot := 5; fd_val := 1; fd_comm := 0; fd_vci := 7; fd_clen := 12; fd_cas := 4 |} ]) =
+  [ (4, [9], [0]); (5, [1; 3], [0; 1]) ].
+Proof. vm_compute. reflexivity. Qed.
+
+(* =========================================================================================== *)
+(* What the check's predicates mean (Check/C03.v).  P_b is evaluated on the OBSERVED outputs of the
+   implementation alone; its MergeDuties and "no slot twice" parts imply the property's relations;
+   and whenever [agree] holds for a history run on the real controller, the model's theorem
+   transfers to the observed Attest / Propose invocations. *)
+Theorem C03_P_merge_sound : forall ds out,
+  P_merge ds out = true ->
+  Forall merged_ok out /\
+  Sorted N.lt (map md_slot out) /\
+  (forall d, In d ds -> count_in d ds = count_out d out) /\
+  fold_right (fun m acc => Nat.add (length (md_vals m)) acc) 0%nat out = length ds.
+Proof. exact P_merge_sound. Qed.
+Print Assumptions C03_P_merge_sound.
+
+Theorem C03_P_hist_no_twice_sound : forall c init ops snaps al pl,
+  P_hist c init ops snaps al pl true = true -> NoDup (map fst al) /\ NoDup (map fst pl).
+Proof. exact P_hist_no_twice. Qed.
+Print Assumptions C03_P_hist_no_twice_sound.
+
+Theorem C03_agree_transfers_no_slot_twice : forall c init ops snaps al pl reorg,
+  agree_hist c init ops snaps al pl reorg = true ->
+  0 < ct_spe (c_ct c) -> bounded c 0 ->
+  hist_ok shadowed c 0 (init_of c init) ops ->
+  NoDup (map fst al) /\ NoDup (map fst pl).
+Proof. exact agree_transfers_no_slot_twice. Qed.
+Print Assumptions C03_agree_transfers_no_slot_twice.
+
+(* for a case the harness declares well-formed, [agree] checks the discipline itself (hist_ok_b),
+   so agreement with the model alone implies that the real controller served no slot twice *)
+Theorem C03_agree_wf_case_no_slot_twice : forall id c init ops snaps al pl reorg,
+  agree {| c_id := id; c_body := BHist c init ops snaps al pl reorg true |} = true ->
+  NoDup (map fst al) /\ NoDup (map fst pl).
+Proof. exact agree_wf_case_no_slot_twice. Qed.
+Print Assumptions C03_agree_wf_case_no_slot_twice.
